@@ -187,7 +187,7 @@ func HarnessC19Webhook() {
 // is deleted; a Usage by a resource becomes owned by that resource.
 //
 //gosym:harness
-//gosym:cover ready deleted-last deleted-not-last fault-hit owned-by-using
+//gosym:cover ready deleted-last deleted-not-last fault-hit owned-by-using marker-switched-off
 func HarnessC19Reconciler() {
 	s, _ := zzSetupStore()
 	of := zzGKN{group: "example.org", version: "v1", kind: "Used", name: "used-1"}
@@ -227,6 +227,12 @@ func HarnessC19Reconciler() {
 		u.DeletionTimestamp = &now
 		// the used resource carries the marker from when the Usage was ready
 		usedObj.SetLabels(map[string]string{inUseLabelKey: "true"})
+		s.Put(usedObj)
+	} else if zz.Bool("used.markerSwitchedOff") {
+		// somebody set the marker label to another value (the webhook only
+		// selects the value "true")
+		zz.Cover("marker-switched-off")
+		usedObj.SetLabels(map[string]string{inUseLabelKey: "false"})
 		s.Put(usedObj)
 	}
 	s.Put(u)
